@@ -112,3 +112,36 @@ def classify_mismatches(ctx, res, what):
         ctx.violations.append({"cls": m["class"], "what": "%s: %s (expected %s, got %s)" % (
             m["class"], m["what"], exp, got), "replay": path})
     return div
+
+
+def run_group(cmd, timeout, **kw):
+    """subprocess.run replacement: the command runs in its own process group and the WHOLE group is killed on
+    timeout (go test -> test binary, tlc wrapper -> java: grandchildren would otherwise live on)."""
+    import signal
+    import subprocess
+    p = subprocess.Popen(cmd, stdout=subprocess.PIPE, stderr=subprocess.STDOUT, text=True, errors="replace",
+                         start_new_session=True, **kw)
+    try:
+        out, _ = p.communicate(timeout=timeout)
+    except subprocess.TimeoutExpired:
+        try:
+            os.killpg(p.pid, signal.SIGKILL)
+        except OSError:
+            pass
+        try:
+            p.communicate(timeout=30)
+        except Exception:
+            pass
+        raise
+    finally:
+        # whatever the command left behind in its group (a test binary that outlived `go test`)
+        try:
+            os.killpg(p.pid, signal.SIGKILL)
+        except OSError:
+            pass
+
+    class R:
+        pass
+    r = R()
+    r.returncode, r.stdout = p.returncode, out
+    return r
